@@ -155,6 +155,9 @@ func c14(args []string) int {
 	layers := []Layer{
 		{Name: "seeded/busy/lock-insert-retry", Cfg: busy, Alphabet: strings.Fields("LCW:PASSIVE LCW:TRUNCATE LCW:RESTART S SW W1 TXB"), Depth: d(2, 3),
 			Seeds: [][]string{strings.Fields("W3 SW TXB"), strings.Fields("W3 SW W1 S TXB")}},
+		// litestream's checkpoint finding SQLite's checkpoint lock held by the application's own checkpoint (LCC)
+		{Name: "seeded/base/checkpoint-vs-app-checkpoint", Cfg: cfgs["base"], Alphabet: strings.Fields("LCC:PASSIVE LCC:RESTART LCC:TRUNCATE W1 S SW"), Depth: d(2, 3),
+			Seeds: [][]string{strings.Fields("W3 SW W1"), strings.Fields("W3 SW W1 S")}},
 		{Name: "seeded/base/local-faults", Cfg: cfgs["base"], Alphabet: aFault, Depth: d(2, 4), Seeds: faultSeeds},
 		{Name: "exact/min3/core", Cfg: cfgs["min3"], Alphabet: aCore, Depth: d(3, 5)},
 		{Name: "exact/base/tx", Cfg: cfgs["base"], Alphabet: aTx, Depth: d(3, 5)},
